@@ -5,6 +5,7 @@ import Driver.Util
 import JanetModel.Fiber.Boot
 import JanetModel.Fiber.Guard
 import JanetModel.Fiber.Sched
+import JanetModel.Fiber.GuardSched
 import JanetModel.Fiber.Named
 open Driver JanetModel.Fiber
 
@@ -185,6 +186,14 @@ def runActs (fuel : Nat) : List (Nat × Val) → Nat × State → Nat × State
     | some (.done _ _) => runActs fuel as (countSteps fuel n (loopEnter s 1 v sig))
     | _ => (n, loopSpecial s)
 
+/-- task mode WITH the guard: guarded instructions between dispatches, `loopEnterG` for the dispatches (Fiber/GuardSched.lean) -/
+def runActsG (lim fuel : Nat) : List (Nat × Val) → Nat × State → Nat × State
+  | [], (n, s) => (n, loopSpecial s)
+  | (sig, v) :: as, (n, s) =>
+    match (loopSpecial s).halt with
+    | some (.done _ _) => runActsG lim fuel as (countStepsG true lim fuel n (loopEnterG lim s 1 v sig))
+    | _ => (n, loopSpecial s)
+
 def showTaskEnd (s : State) : String :=
   match s.halt, s.fiber? 1 with
   | some (.done _ _), some f1 =>
@@ -205,6 +214,14 @@ def stepLine (_ : Unit) (toks : List String) : Unit × String :=
       let (n, s) := runActs (num fuel) (parseActs acts)
         (countSteps (num fuel) 0 (initTask t (flagsOf fl) { arity := num a, minArity := num m, rest := num rs } v0))
       ((), String.intercalate ";" (s.trace.reverse.map showEvent) ++ " | " ++ showTaskEnd s ++ " | " ++ toString n)
+    | _ => ((), "bad-op parse")
+  | "gstree" :: lim :: fl :: fuel :: a :: m :: rs :: v :: acts :: r =>
+    match parseTm r with
+    | some (t, []) =>
+      let v0 := match parseAtom v with | .lit x => x | _ => .nil
+      let (n, s) := runActsG (num lim) (num fuel) (parseActs acts)
+        (countStepsG true (num lim) (num fuel) 0 (initTask t (flagsOf fl) { arity := num a, minArity := num m, rest := num rs } v0))
+      ((), String.intercalate ";" (s.trace.reverse.map showEventG) ++ " | " ++ showTaskEnd s ++ " | " ++ toString n)
     | _ => ((), "bad-op parse")
   | "gtree" :: after :: lim :: fl :: fuel :: a :: m :: rs :: v :: r =>
     match parseTm r with
